@@ -96,7 +96,7 @@ func (c *clientSide) snap() ([]byte, bool, string, bool) {
 func runRelay(e *core.Env) {
 	rec := e.Rec
 	race := e.Part == "relay-race"
-	rec.Rule("relay: one case = (server protocol S, routed client protocol C incl. direct and chained proxies, target behaviour echo / banner-on-eof / speak-first / close-first / sink, initial payload 0/1/1440/1441/65536 handed to the dial, first data at virtual t in {0, 249 ms, 251 ms, never} relative to the 250 ms initial-payload wait, further writes, who half-closes first, dial failure refused / router reject / name-resolution failure, wait disabled or not, IP or domain target); class = (S, C, mode, payload class, timing, failure, wait mode)")
+	rec.Rule("relay: one case = (server protocol S, routed client protocol C incl. direct and chained proxies, target behaviour echo / banner-on-eof / speak-first / close-first / sink, initial payload 0/1/1440/1441/65536 handed to the dial, first data at virtual t in {0, 249 ms, 251 ms, never} relative to the 250 ms initial-payload wait, further writes, who half-closes first, dial failure refused / router reject / name-resolution failure, wait disabled or not, IP or domain target); for http servers additionally plain (non-CONNECT) requests on a kept-alive proxy connection: 2-4 GET/POST/PUT requests with bodies up to 70000 bytes, idle gaps of 0 / 249 ms / 251 ms / 300 ms / 2 s / 40 s before a request and between a request head and its body; class = (S, C, mode, payload class, timing, failure, wait mode)")
 	dnsOnce.Do(func() { fakeDNS = svx.InstallFakeDNS() })
 	protosS := []string{"socks5", "http", "ss128", "none", "socks5auth", "httpauth", "ss256", "ssmulti"}
 	protosC := []string{"direct", "ss128", "none", "socks5", "http", "ss256", "ssmulti"}
@@ -239,6 +239,12 @@ func pairCase(e *core.Env, ci int, r *core.RNG, S, C string, per int, race bool)
 				"server A reports uplink %d / downlink %d bytes, %d sessions; the sockets carried uplink %d / downlink %d in %d successful sessions", got.UplinkBytes, got.DownlinkBytes, got.TCPSessions, expectUp, expectDown, sessions)
 		} else {
 			rec.Count("stats_compared", 1)
+		}
+	}
+	// ---- plain (non-CONNECT) requests on a kept-alive proxy connection (after the statistics were compared) ----
+	if strings.HasPrefix(S, "http") && !upDown {
+		for k := 0; k < e.N(2, 6); k++ {
+			plainHTTP(e, ci, r, inst, S, C, ports[0], ports[3], race, noWait)
 		}
 	}
 }
